@@ -200,6 +200,26 @@ def gen_cases(ck, tier):
                     s = subj_all[rng.below(len(subj_all))]
                     cases.append(Case(ptn, s, rng.below(len(s) + 2), pick_repl(rng), pick_n(rng),
                                       pick_budget(rng), "a", "enum%d" % n, toks))
+    # ---- back-references, with captures that can be empty (round 8: seeded change C15-m9 — a back-reference to a capture
+    # holding "" never matched — was missed: such patterns need >= 5 tokens and the enumeration stops at 4)
+    inners = ["a*", "a?", "a-", ".-", "[ab]*", "%d*", "b?", "a", "a+", ".", ""]
+    mids = ["", "b", "c*", "a"]
+    tails = ["", "b", "$", "%1"]
+    heads = ["", "^", "c"]
+    brsubj = subjects(4)
+    for inner in inners:
+        for mid in mids:
+            for tl in tails:
+                for hd in heads:
+                    if inner == "":
+                        continue
+                    ptn = (hd + "(" + inner + ")" + mid + "%1" + tl).encode()
+                    for _ in range(3 if quick else 40):
+                        sb = brsubj[rng.below(len(brsubj))]
+                        cases.append(Case(ptn, sb, rng.below(len(sb) + 2), pick_repl(rng), pick_n(rng),
+                                          pick_budget(rng), "a", "backref"))
+                    cases.append(Case(ptn, b"", 0, pick_repl(rng), pick_n(rng), BIG, "a", "backref"))
+                    cases.append(Case(ptn, b"b", 0, pick_repl(rng), pick_n(rng), BIG, "a", "backref"))
     # ---- random longer patterns / subjects over a wider alphabet
     nrand = 4000 if quick else 150000
     wide = TOKENS + ["c", "%s", "%w", "%x", "%u", "%l", "%p", "%c", "%g", "%A", "%D", "%S", "[%a_]", "[^%d]", "[]]", "[^]a]", "[a-]",
